@@ -70,8 +70,12 @@ def pair_asset_income(a, r):
     ainc = r * a            # takes a shockable input of the block directly
     return ainc
 
-pair_het = _hh.add_hetinputs([pair_grids, pair_income, alter_Pi]).add_hetoutputs([marginal_utility, pair_asset_income])
-pair_stage = StageBlock([ExogenousMaker('Pi', 0, 'stage0'), Continuous1D(backward='Va', policy='a', f=household_new, name='stage1', hetoutputs=[marginal_utility, pair_asset_income])],
+def value_per_unit(Va, r):
+    vpu = Va / (1 + r)            # a hetoutput that reads the BACKWARD variable itself (it must see the value computed by this period's step, not the continuation value)
+    return vpu
+
+pair_het = _hh.add_hetinputs([pair_grids, pair_income, alter_Pi]).add_hetoutputs([marginal_utility, pair_asset_income, value_per_unit])
+pair_stage = StageBlock([ExogenousMaker('Pi', 0, 'stage0'), Continuous1D(backward='Va', policy='a', f=household_new, name='stage1', hetoutputs=[marginal_utility, pair_asset_income, value_per_unit])],
                         name='hh', backward_init=_hh_init, hetinputs=(pair_grids, pair_income, alter_Pi))
 pair_stage_bare = StageBlock([ExogenousMaker('Pi', 0, 'stage0'), Continuous1D(backward='Va', policy='a', f=household_new, name='stage1', hetoutputs=[marginal_utility])],
                              name='hh_bare', backward_init=_hh_init)
